@@ -78,11 +78,24 @@ type Result struct {
 	Hung           bool
 	Panic          string
 	Mutated        string // a retained sequence changed after delivery
+	timerEsc       bool   // the Escape timer fired
 }
 
 // Run feeds the reader to a fresh parser and collects everything it delivers.
 // finish: call Parser.Finish on each sequence (false = retain everything).
 func Run(rd io.Reader, finish bool, timeout time.Duration) Result {
+	res := runOnce(rd, finish, timeout)
+	// a reader without pauses: an Escape from the timer is a scheduling artefact (hx.IsTimerEsc)
+	if cr, ok := rd.(*ChunkReader); ok && len(cr.GapAt) == 0 {
+		for n := 0; n < hx.TimerEscRetries && res.timerEsc && !res.Hung; n++ {
+			cr.i, cr.rest = 0, nil
+			res = runOnce(cr, finish, timeout)
+		}
+	}
+	return res
+}
+
+func runOnce(rd io.Reader, finish bool, timeout time.Duration) Result {
 	var res Result
 	p := ansi.NewParser(rd)
 	done := make(chan struct{})
@@ -144,6 +157,9 @@ func Run(rd io.Reader, finish bool, timeout time.Duration) Result {
 					res.Items = append(res.Items, Item{Kind: "print", Runes: runes([]rune(g))})
 				}
 			case ansi.C0:
+				if hx.IsTimerEsc(s) {
+					res.timerEsc = true
+				}
 				res.Items = append(res.Items, Item{Kind: "c0", Final: int64(s)})
 			case ansi.ESC:
 				res.Items = append(res.Items, Item{Kind: "esc", Inter: runes(s.Intermediate), Final: int64(s.Final)})
